@@ -84,7 +84,7 @@ def mc_export(base, model, params, name):
                 COps=Raw(params['Ops']))
     cfg = ['SPECIFICATION Spec', 'CONSTANTS', ' K <- CK', ' Flav <- CFlav', ' NInl <- CNInl', ' MaxSz <- CMaxSz',
            ' TypeId <- CTypeId', ' AllocId <- CAllocId', ' Vals <- CVals', ' MaxLen = %d' % params['MaxLen'], ' MaxCnt = %d' % params['MaxCnt'],
-           ' Its <- CIts', ' RLens <- CRLens', ' Ops <- COps', ' Alias = %s' % ('TRUE' if params.get('Alias', True) else 'FALSE'), 'VIEW View', 'INVARIANT Inv', 'PROPERTY StepProps',
+           ' Its <- CIts', ' RLens <- CRLens', ' Ops <- COps', ' Alias = %s' % ('TRUE' if params.get('Alias', True) else 'FALSE'), ' Near = %d' % params.get('Near', 0), 'VIEW View', 'INVARIANT Inv', 'PROPERTY StepProps',
            'ACTION_CONSTRAINT Export']
     write_mc(d, 'MC_gen', 'MCVec', defs, cfg)
     outp = os.path.join(d, 'export.txt')
@@ -132,7 +132,7 @@ def sim_behaviours(base, model, params, num, depth, seed, name):
                 COps=Raw(params['Ops']))
     cfg = ['SPECIFICATION SpecRandom', 'CONSTANTS', ' K <- CK', ' Flav <- CFlav', ' NInl <- CNInl', ' MaxSz <- CMaxSz',
            ' TypeId <- CTypeId', ' AllocId <- CAllocId', ' Vals <- CVals', ' MaxLen = %d' % params['MaxLen'], ' MaxCnt = %d' % params['MaxCnt'],
-           ' Its <- CIts', ' RLens <- CRLens', ' Ops <- COps', ' Alias = %s' % ('TRUE' if params.get('Alias', True) else 'FALSE'), 'INVARIANT Inv', 'ACTION_CONSTRAINT ExportSim']
+           ' Its <- CIts', ' RLens <- CRLens', ' Ops <- COps', ' Alias = %s' % ('TRUE' if params.get('Alias', True) else 'FALSE'), ' Near = %d' % params.get('Near', 0), 'INVARIANT Inv', 'ACTION_CONSTRAINT ExportSim']
     write_mc(d, 'MC_sim', 'MCVec', defs, cfg)
     outp = os.path.join(d, 'export.txt')
     rc, _, dt = tlc(d, 'MC_sim', 'MC_sim.cfg', workers=1, outfile=outp, timeout=3000, heap='4g',
